@@ -3,8 +3,11 @@
 // at any moment and *who* runs is the plan's decision (schedule vector).  Oracle: every task's serialised result
 // equals the same task run alone before and after the concurrent phase.
 #include <pthread.h>
+#include <sys/wait.h>
+#include <unistd.h>
 
 #include <condition_variable>
+#include <functional>
 #include <mutex>
 
 #include "Compiler/include/compiler.hpp"
@@ -186,6 +189,24 @@ void exec_mt_plan(const Plan &plan, Ctx &ctx, Outcome &out) {
   bool free_running = plan.knobs.count("free_running") && plan.knobs.at("free_running");
   for (auto &t : plan.tasks) ctx.evs("task", project_brief(t.proj));
 
+  // history helper: a child forked before this process touches the library for this plan runs every task alone in
+  // the opposite order; what a task yields must not depend on which other task came first
+  int hfd[2] = {-1, -1};
+  pid_t helper = -1;
+  if (!free_running && pipe(hfd) == 0) {
+    fflush(stdout);
+    helper = fork();
+    if (helper == 0) {
+      close(hfd[0]);
+      set_phase(PH_COMPILE);
+      std::vector<uint64_t> fps(2 * n, 0);
+      for (size_t k = n; k-- > 0;) { TaskResult r = run_task(plan.tasks[k], budget); fps[2 * k] = r.compile_fp; fps[2 * k + 1] = r.exec_fp; }
+      ssize_t w = write(hfd[1], fps.data(), fps.size() * sizeof(uint64_t)); (void)w;
+      _exit(0);
+    }
+    close(hfd[1]);
+  }
+
   // (a) every task alone, before any concurrency
   set_phase(PH_COMPILE);
   std::vector<TaskResult> alone(n), conc(n), again(n);
@@ -249,6 +270,23 @@ void exec_mt_plan(const Plan &plan, Ctx &ctx, Outcome &out) {
       ctx.check(false, "C18", "vm_independent_of_history", "task " + std::to_string(k) + ": the same VM session gives a different result later in the process");
     if (alone[k].ok) ctx.stats.inc("tasks_compiled_ok"); else ctx.stats.inc("tasks_with_compile_errors");
   }
+  if (helper > 0) {
+    std::vector<uint64_t> fps(2 * n, 0);
+    size_t got = 0; ssize_t r;
+    while (got < fps.size() * sizeof(uint64_t) && (r = read(hfd[0], (char *)fps.data() + got, fps.size() * sizeof(uint64_t) - got)) > 0) got += (size_t)r;
+    close(hfd[0]);
+    int st = 0; waitpid(helper, &st, 0);
+    if (got == fps.size() * sizeof(uint64_t)) {
+      ctx.stats.inc("reordered_history_runs");
+      for (size_t k = 0; k < n; k++) {
+        ctx.ev("reordered", (long long)k, (long long)(fps[2 * k] & 0xffffffff), (long long)(fps[2 * k + 1] & 0xffffffff));
+        if (fps[2 * k] != alone[k].compile_fp)
+          ctx.check(false, "C18", "compile_result_independent_of_history", "task " + std::to_string(k) + ": compile() gives a different result when the other tasks of this plan were compiled before it than when they were compiled after it");
+        else if (fps[2 * k + 1] != alone[k].exec_fp)
+          ctx.check(false, "C18", "vm_independent_of_history", "task " + std::to_string(k) + ": the VM session differs depending on which tasks ran before it");
+      }
+    } else ctx.check(false, "C18", "reordered_run_completes", "running the tasks alone in the opposite order did not complete (status " + std::to_string(st) + ")");
+  }
   // tasks sharing one project must agree on the compile result among themselves
   for (size_t a = 0; a < n; a++) for (size_t b = a + 1; b < n; b++)
     if (plan.tasks[a].proj.files == plan.tasks[b].proj.files && plan.tasks[a].proj.main == plan.tasks[b].proj.main) {
@@ -267,12 +305,31 @@ Plan gen_mt_plan(const std::string &, Rng &rng, long long, const std::string &ti
   bool twin = rng.chance(3, 10);
   for (int k = 0; k < ntasks; k++) {
     Task t;
+    int variant = k == 0 ? 0 : (int)rng.below(10);   // later tasks are often near-copies of the first: same rules, names, files - other positions
     if (twin && k == 1) t.proj = p.tasks[0].proj;
-    else {
+    else if (k > 0 && variant < 5 && p.tasks[0].proj.has_ast) {
+      t.proj = p.tasks[0].proj;
+      if (variant < 2) { t.proj.layout.seed = rng.next(); t.proj.layout.style = (int)rng.below(2); t.proj.layout.nfiles = (int)rng.range(1, 3); render(t.proj); }   // same AST, other layout
+      else if (variant < 4) {   // same text, shifted down / other file names
+        std::map<std::string, std::string> nf;
+        for (auto &kv : t.proj.files) {
+          std::string name = kv.first, text = kv.second;
+          if (variant == 2 || name == t.proj.main) text = std::string((size_t)rng.range(1, 3), '\n') + text;
+          nf[name] = text;
+        }
+        if (variant == 3 && nf.size() == 1) { std::string text = nf.begin()->second; nf.clear(); nf["other.theo"] = text; t.proj.main = "other.theo"; }
+        t.proj.files = nf; t.proj.has_ast = false;
+      } else {   // one constant changed
+        std::function<bool(std::vector<Stmt> &)> bump = [&](std::vector<Stmt> &b) { for (auto &s : b) { if (s.k == Stmt::ASSIGN && s.val.k == Val::CONST) { s.val.c += 1; return true; } if (bump(s.body) || bump(s.body2)) return true; } return false; };
+        if (!bump(t.proj.ast.main)) for (auto &r : t.proj.ast.defs) if (bump(r.body)) break;
+        render(t.proj);
+      }
+    } else {
       GenParams gp;
       gp.max_defs = (int)rng.range(0, 3); gp.max_stmts = (int)rng.range(2, thorough ? 9 : 6); gp.max_depth = (int)rng.range(1, 3); gp.max_const = 4;
       gp.allow_noparam = true; gp.allow_stop = rng.chance(1, 5);
       gp.macros = rng.chance(1, 2) ? (unsigned)rng.below(16) : 0;
+      if (rng.chance(1, 4)) gp.macros |= MF_NONLR;
       gp.call_heavy = rng.chance(1, 3);
       t.proj.has_ast = true;
       t.proj.ast = generate_ast(rng, gp);
